@@ -26,6 +26,7 @@ import Tsg.Proofs.ParserFuel
 import Tsg.Proofs.CheckerSafe
 import Tsg.Syntax.Load
 import Tsg.Props.C10
+import Tsg.Proofs.StrictSafeInterp
 
 namespace C05
 open Parser Checker
@@ -138,5 +139,99 @@ theorem C05_scan_always_advances (o : Oracle) (subject : String) (i : Nat) (arms
     (ms : List (RMatch × Nat)) (m : RMatch) (k : Nat)
     (hc : Strict.scanCollect o subject i arms 0 = .ok ms) (hb : Strict.scanBest ms = some (m, k)) : i < i + m.stop :=
   C10.C10_always_advances o subject i arms ms m k hc hb
+
+/-! ### execution: panic sites that are unreachable whatever the input
+
+Of the panic sites of the interpreters' model, two are unreachable unconditionally: the `arms[index]` of the scan
+loops (`C10.C10_plan_no_bad_arm`: the selected index is the index of one of the arms) and the single-map shape of a
+scope's variables. The others are reachable only if a contract outside the interpreter is broken (tree-sitter
+returns captures that respect their quantifiers and a full-match node that is in the tree; the checker has resolved
+every capture; graph-node values refer to nodes of the graph) — they are exercised by the watchdog run, not proved. -/
+
+
+theorem frames_add_singleton {V : Type} (f : Frame V) (k : String) (v : V) (m : Bool) :
+    (∃ f', Frames.add [f] k v m = .ok [f']) ∨ (∃ e, Frames.add [f] k v m = .error e) := by
+  unfold Frames.add
+  cases h : f.lookup k <;> simp [h]
+
+theorem frames_set_singleton {V : Type} (f : Frame V) (k : String) (v : V) :
+    (∃ f', Frames.set [f] k v = .ok [f']) ∨ (∃ e, Frames.set [f] k v = .error e) := by
+  unfold Frames.set
+  cases h : f.lookup k with
+  | none => simp [Frames.set, h]
+  | some p =>
+    obtain ⟨x, b⟩ := p
+    cases b <;> simp [h]
+
+/-- the `scoped:frames` site of `Strict.scopedAdd` / `Strict.scopedSet` (a scope's variable map is a single map) is unreachable -/
+theorem C05_scoped_store_never_panics (node : Nat) (name : String) (v : Val) (mutable : Bool) (s : Prog.MSt SRest) (site : String) :
+    (∀ s', Prog.run (Strict.scopedAdd node name v mutable) s ≠ .fail (.panic site) s') ∧
+    (∀ s', Prog.run (Strict.scopedSet node name v) s ≠ .fail (.panic site) s') := by
+  constructor
+  · intro s'
+    simp only [Strict.scopedAdd, Prog.primP, Prog.run]
+    rcases frames_add_singleton (Strict.scopedFrame s.rest node) name v mutable with ⟨f', h⟩ | ⟨e, h⟩ <;> simp [h]
+  · intro s'
+    simp only [Strict.scopedSet, Prog.primP, Prog.run]
+    rcases frames_set_singleton (Strict.scopedFrame s.rest node) name v with ⟨f', h⟩ | ⟨e, h⟩ <;> simp [h]
+
+/-- the scan loops never index outside their arms (restated from C10) -/
+theorem C05_scan_arm_index_in_range (o : Oracle) (subject : String) (arms : List (String × List Stmt × Loc)) (n i : Nat) :
+    ¬ (C10.scanPlan o subject arms n i).HasBadArm :=
+  C10.C10_plan_no_bad_arm o subject arms n i
+
+/-! ### strict execution never panics
+
+Every `unwrap` / `expect` / `unreachable!` / index of the strict interpreter is an explicit `panic site` outcome of its
+model (`Tsg/Sem/Strict.lean`, `Stdlib.lean`): `from_nodes` on a quantifier/capture mismatch, an unresolved capture, a
+graph index out of range, the single-map shape of a scope's variables, the scan arm index, the full-match node missing
+from the tree, a source slice off a character boundary. None is reachable — under the contracts of what the interpreter
+is given. The proof (Tsg/Proofs/StrictSafe.lean, StrictSafeInterp.lean) is a Hoare-style safety predicate on programs
+with the invariant "every graph-node value held in a variable, a scoped variable or a global refers to a node of the
+graph", one lemma per program former, per state/graph primitive, per library function and per interpreter function. -/
+
+/-- **Strict execution never reaches a panic site.** -/
+theorem C05_strict_never_panics (file : File) (tree : Tree) (oracle : Oracle) (globals : GlobalsM) (la va ma : Option String)
+    (cancelAt : Option Nat) (fuel : Nat) (ms : List (List QMatch)) (g0 : CGraph)
+    (ht : StrictSafe.TreeOK tree) (hg : StrictSafe.GlobalsWf g0.nodes.length globals)
+    (hsh : ∀ sh ∈ file.shorthands, StrictSafe.attrsCaps sh.attrs = [])
+    (hst : ∀ p ∈ file.stanzas.zip ms, StrictSafe.StanzaOK p.1 ∧ ∀ m ∈ p.2, StrictSafe.MatchOK tree p.1 m) :
+    ∀ site, (Strict.run file tree oracle globals la va ma cancelAt fuel ms g0).outcome ≠ some (.panic site) :=
+  StrictSafe.strict_never_panics file tree oracle globals la va ma cancelAt fuel ms g0 ht hg hsh hst
+
+/-- the contracts are satisfiable by a non-trivial stanza and match: a stanza `(…) @x { node n  attr (n) k = @x }` whose
+query reports `@x` once, matched at a node of the tree -/
+example (tree : Tree) (nd : TNode) (h0 : tree.node? 0 = some nd) :
+    let st : Stanza := { stmts := [.createNode (.unscoped "n" ⟨0, 0⟩) ⟨0, 0⟩,
+                                   .attrNode (.var "n" ⟨0, 0⟩) [("k", .capture "x" .one 0 0 ⟨0, 0⟩)] ⟨0, 0⟩],
+                         fullMatchStanzaIx := 1, fullMatchFileIx := 1, rangeStart := ⟨0, 0⟩, rangeEnd := ⟨0, 0⟩,
+                         captures := [("x", .one), (fullMatchName, .one)] }
+    let m : QMatch := { patternIx := 0, caps := [("x", [0]), (fullMatchName, [0])] }
+    StrictSafe.StanzaOK st ∧ StrictSafe.MatchOK tree st m := by
+  intro st m
+  constructor
+  · intro name hn
+    simp [st, StrictSafe.stmtsCaps, StrictSafe.stmtCaps, StrictSafe.exprCaps, StrictSafe.attrsCaps, StrictSafe.varCaps] at hn
+    subst hn
+    simp [st, List.lookup]
+  · constructor
+    · intro name q hl
+      simp only [st, List.lookup] at hl
+      split at hl
+      · rename_i hx
+        cases hl
+        refine ⟨by decide, fun _ => ?_⟩
+        simp [m, QMatch.nodes, List.lookup, hx]
+      · rename_i hx
+        split at hl
+        · rename_i hf
+          cases hl
+          refine ⟨by decide, fun _ => ?_⟩
+          simp [m, QMatch.nodes, List.lookup, hx, hf]
+        · cases hl
+    · intro n rest hmn
+      simp [m, QMatch.nodes, List.lookup, fullMatchName] at hmn
+      obtain ⟨rfl, _⟩ := hmn
+      simp [h0]
 
 end C05
